@@ -347,6 +347,7 @@ func (kc *kernelCtx) runFunc0(b *Block) *Unit {
 	// the names the contract was written against (`binds`, generated by tools/mkbinds.py): parameters and captured variables of
 	// the function. A renamed one would otherwise resolve to some other cell of the same name, or to an event name that
 	// never occurs, and fail for no semantic reason.
+	outerCells := map[string]types.Type{}
 	if c := b.first("binds"); c != nil {
 		have := map[string]bool{}
 		for f := fn; f != nil; f = f.Parent() {
@@ -355,6 +356,17 @@ func (kc *kernelCtx) runFunc0(b *Block) *Unit {
 			}
 			for _, fv := range f.FreeVars {
 				have[fv.Name()] = true
+			}
+		}
+		// a cell of an enclosing function that this closure no longer reads (`done := ... completedB && len(valueC) == 0`
+		// where the contract says completedC): the name still denotes that cell; the closure simply leaves it alone, and
+		// its value is whatever it is - which is the point when the contract says the outcome depends on it
+		if top := outermost(fn); top != fn {
+			for n, t := range cellTypes(top) {
+				if !have[n] {
+					have[n] = true
+					outerCells[n] = t
+				}
 			}
 		}
 		var missing []string
@@ -475,6 +487,13 @@ func (kc *kernelCtx) runFunc0(b *Block) *Unit {
 		env := mkEnv(st, nil)
 		for i, p := range fn.Params {
 			env.Vars[p.Name()] = args[i]
+		}
+		if c := b.first("binds"); c != nil {
+			for _, n := range strings.Fields(c.Text) {
+				if t, ok := outerCells[n]; ok {
+					x.load(st, n, t, token.NoPos) // pre-state symbol of an enclosing function's cell the closure does not read
+				}
+			}
 		}
 		if len(b.all("requires")) > 0 {
 			// captured variables a precondition may mention: their pre-state symbols
@@ -1240,4 +1259,12 @@ func (kc *kernelCtx) privateHelper(fn *ssa.Function, pkg string) (bool, string) 
 		}
 	}
 	return true, ""
+}
+
+
+func outermost(fn *ssa.Function) *ssa.Function {
+	for fn.Parent() != nil {
+		fn = fn.Parent()
+	}
+	return fn
 }
